@@ -215,3 +215,105 @@ Proof.
     + simpl. apply s_packet_mon.
   - eexists. split; [apply s_m_dispatch_new | repeat split].
 Qed.
+
+(* ------------------------------------------------------------------ the statements of C15.v *)
+Definition is_start (s0 : gst) : Prop :=
+  s0 = init_client true \/ s0 = init_client false \/ s0 = init_served true \/ s0 = init_served false.
+
+Lemma good_start s0 : is_start s0 -> Good s0.
+Proof. intros [-> | [-> | [-> | ->]]]; (apply good_client || apply good_served). Qed.
+
+Lemma star_weaken cap (f g : lab -> bool) s t :
+  (forall l, f l = true -> g l = true) -> star cap f s t -> star cap g s t.
+Proof. intros W St. induction St; [apply star_refl | eapply star_step; eauto]. Qed.
+
+Lemma thm_postprocess_exits :
+  forall cap s0 s, is_start s0 ->
+  reach cap s0 s -> die s = true -> (pp s = PPSel \/ pp s = PPBlk) ->
+  exists t, star cap is_pp s t /\ pp t = PPDone /\ q t = 0.
+Proof. intros cap s0 s H. apply postprocess_exits. apply good_start; auto. Qed.
+
+Lemma thm_update_stops :
+  forall cap s0 s, is_start s0 ->
+  reach cap s0 s ->
+  pend s + b2n (run s) <= 1 /\
+  (die s = true ->
+     (forall l t, step cap s l t -> is_upd l = true ->
+        (l = U_fire_dead /\ S (pend t) = pend s /\ run t = run s) \/ (l = U_resubmit /\ run s = true)) /\
+     (exists t, star cap is_upd s t /\ pend t = 0 /\ run t = false /\ die t = true /\ pp t = pp s)) /\
+  (die s = true -> pp s <> PPNone -> pend s = 0 -> run s = false ->
+     forall l t, step cap s l t -> die t = true /\ pp t <> PPNone /\ pend t = 0 /\ run t = false).
+Proof.
+  intros cap s0 s H R. pose proof (good_start _ H) as G0.
+  split; [exact (proj1 (proj2 (good_reach _ _ _ G0 R))) | split].
+  - intro Hd. split.
+    + intros l t St Hu. eapply update_fire_dead_only; eauto.
+    + eapply update_drains; eauto.
+  - intros Hd Hp Hq Hr l t St. eapply update_stopped_stable; eauto.
+Qed.
+
+Lemma thm_readloop_exits :
+  forall cap,
+  (forall s, die s = true -> sock s = true -> (rl s = RLRead \/ rl s = RLGot \/ rl s = RLIn) ->
+     exists t, star cap is_rl s t /\ rl t = RLDone) /\
+  (forall s, die s = true -> rl s = RLGot -> exists t, step cap s RL_closed t /\ rl t = RLDone) /\
+  (forall s, reach cap (init_client true) s -> die s = true -> sock s = true) /\
+  (forall s, reach cap (init_served true) s -> ldie s = true -> sock s = true) /\
+  (forall o s, reach cap (init_served o) s -> sock s = true -> (mon s = MRead \/ mon s = MGot) ->
+     exists t, star cap is_mon s t /\ mon t = MDone).
+Proof.
+  intro cap. split; [| split; [| split; [| split]]].
+  - apply readloop_exits.
+  - apply readloop_exits_on_packet.
+  - apply client_close_closes_socket.
+  - apply listener_close_closes_socket.
+  - intros o s R. eapply monitor_exits; [apply good_served | exact R].
+Qed.
+
+Definition all_exit_full : Prop :=
+  forall cap o s, reach cap (init_served o) s -> ldie s = true -> sock s = true ->
+    (wh s = WHeld -> die s = true) ->
+    exists t, star cap (fun l => negb (is_env l)) s t /\
+              (pp t = PPDone \/ pp t = PPNone) /\ pend t = 0 /\ run t = false /\ mon t = MDone.
+
+Lemma thm_backlog_leak_refuted :
+  (exists s, (forall cap, reach cap (init_served true) s) /\
+     ldie s = true /\ sock s = true /\ mon s = MDone /\ wh s = WBacklog /\
+     forall cap t, star cap not_accept s t ->
+       die t = false /\ pp t = PPSel /\ wh t = WBacklog /\ pend t + b2n (run t) = 1) /\
+  (exists s, (forall cap, reach cap (init_served false) s) /\ ldie s = true /\
+     forall cap, exists t, step cap s M_dispatch_new t /\ wh t = WBacklog /\ pp t = PPSel /\ pend t = 1) /\
+  ~ all_exit_full.
+Proof.
+  assert (L0 : Leaked leak_state) by (repeat split; reflexivity).
+  split; [| split].
+  - exists leak_state. split; [intro; apply leak_reachable|].
+    split; [reflexivity|]. split; [reflexivity|]. split; [reflexivity|]. split; [reflexivity|].
+    intros cap t St. destruct (leaked_forever cap _ _ L0 St) as [L1 [L2 [L3 [_ L5]]]]. auto.
+  - exists closed_listening. split; [intro; apply (proj1 (dispatch_after_close cap))|].
+    split; [reflexivity|]. intro cap. apply (proj2 (proj2 (dispatch_after_close cap))).
+  - intro F. destruct (F 1 true leak_state (leak_reachable 1) eq_refl eq_refl) as [t [St [Hp _]]].
+    { simpl. discriminate. }
+    assert (St' : star 1 not_accept leak_state t).
+    { eapply star_weaken; [| exact St]. intros l; destruct l; simpl; auto. }
+    destruct (leaked_forever 1 _ _ L0 St') as [_ [L2 _]]. rewrite L2 in Hp. destruct Hp; discriminate.
+Qed.
+
+Lemma ex_exit :
+  let s := mkS true true false 2 PPSel 1 false RLRead MNone WHeld true in
+  reach 8 (init_client true) s /\
+  star 8 (fun l => negb (is_env l)) s (mkS true true false 0 PPDone 0 false RLDone MNone WHeld true).
+Proof.
+  split.
+  - eapply reach_step; [eapply reach_step; [eapply reach_step; [apply reach_init|] |] |].
+    + apply s_enqueue_ok; [discriminate | repeat constructor].
+    + apply s_enqueue_ok; [discriminate | repeat constructor].
+    + apply (s_close_sess 8 false false false 2 PPSel 1 false RLRead MNone true).
+  - eapply star_step; [apply s_pp_die_more | reflexivity |].
+    eapply star_step; [apply s_pp_consume_blk | reflexivity |].
+    eapply star_step; [apply s_pp_consume | reflexivity |].
+    eapply star_step; [apply s_pp_die_exit | reflexivity |].
+    eapply star_step; [apply s_u_fire_dead | reflexivity |].
+    eapply star_step; [apply s_rl_err | reflexivity |].
+    apply star_refl.
+Qed.
